@@ -36,24 +36,37 @@ def corpus():
 
 
 MANIFEST = {
-    "text": ("READER side, Coq proofs over the model of the reader cache, for every QoS (limits that are set are "
-             ">= 0; no consistency condition is needed) and every operation history: the number of stored samples, "
-             "of distinct instances among them, and of samples of any one instance never exceed max_samples, "
-             "max_instances, max_samples_per_instance; in any state a change that is not accepted (Rejected, "
-             "NotAdded, error) leaves the stored samples untouched and every stored sample is one that was accepted; "
-             "the result is Rejected with reason samples / instances / samples-per-instance exactly when (iff) the "
-             "change passed the ownership and time-filter gates and that limit is exactly full and storing would add "
-             "one (not a KEEP_LAST replacement / a new instance), in the code's priority order; a change that passes "
-             "the gates and hits no limit is stored. The model is tied to the code by exact comparison (every return "
-             "value incl. the rejection reason, state before every read/take, final cache) on generated histories "
-             "evaluated inside Coq; C19_oracle_ok judges the real reader's own outputs. NOT covered: the "
+    "text": ("READER: Coq proofs over the model of the reader cache, for every QoS (limits that are set are >= 0; no "
+             "consistency condition is needed) and every operation history: the number of stored samples, of distinct "
+             "instances among them, and of samples of any one instance never exceed max_samples, max_instances, "
+             "max_samples_per_instance; in any state a change that is not accepted (Rejected, NotAdded, error) leaves "
+             "the stored samples untouched and every stored sample is one that was accepted; the result is Rejected "
+             "with reason samples / instances / samples-per-instance exactly when (iff) the change passed the ownership "
+             "and time-filter gates and that limit is exactly full and storing would add one (not a KEEP_LAST "
+             "replacement / a new instance), in the code's priority order; a change that passes the gates and hits no "
+             "limit is stored. WRITER: Coq proofs over a model of DataWriterEntity::write_w_timestamp and of the "
+             "KEEP_LAST step of its caller: over every history of DataWriter::write calls (set limits >= 0, depth >= 1) "
+             "total samples, registered instances and samples per instance never exceed the limits; OutOfResources is "
+             "returned exactly when (iff) one of the three tests of the code is met; a refused write records no sample, "
+             "no sequence number and hands nothing to the transport writer; an accepted write records exactly one; a "
+             "KEEP_LAST replacement is never followed by a refusal. Recorded deviation (known finding, witness theorem "
+             "C19_writer_refused_registers_instance): a write refused for max_samples(_per_instance) leaves its new "
+             "instance registered, occupying a max_instances slot. Both models are tied to the code by exact comparison "
+             "of every return value and of the state on generated histories evaluated inside Coq (harness rdr: real "
+             "UserDefinedDataReader; harness c19w: real DataWriterEntity with a recording mock transport writer); the "
+             "oracles C19_oracle_ok / C19W_oracle_ok judge the real code's own outputs. NOT covered: the "
              "SampleRejectedStatus counters (increment_sample_rejected_status and its call site in "
-             "communication_methods.rs take the AddChangeResult::Rejected value proved here) and the WRITER side "
-             "(DataWriterEntity returning OutOfResources and storing nothing)."),
-    "note": ("Trusted: Coq kernel, hand model ReaderModel.v (correspondence-checked each run), harness, generator. "
-             "Axioms: none. Defect fixed earlier: max_samples counted only Alive samples (fix commit a2ae1ce). "
-             "Observation: a Rejected/NotAdded change has already updated the instance state (recorded under C22)."),
-    "technique": "Coq proof (limit invariant by induction over operation histories; exact case analysis of add_reader_change) + differential correspondence",
+             "communication_methods.rs consume the AddChangeResult::Rejected value characterised here); the reliable "
+             "writer's wait for acknowledgements before a KEEP_LAST replacement; register/unregister/dispose."),
+    "note": ("Trusted: Coq kernel, hand models ReaderModel.v / WriterModel.v (correspondence-checked each run), "
+             "harnesses (c19w repeats the caller's 20-line KEEP_LAST step of writer_methods.rs on the real entity), "
+             "generators. Axioms: none. Defect fixed earlier: reader max_samples counted only Alive samples (a2ae1ce). "
+             "Observations reported, not judged by the oracle: writer `samples` bookkeeping is only ever reduced by the "
+             "KEEP_LAST step, so a KEEP_ALL writer with max_samples(_per_instance) N refuses every write after N "
+             "accepted ones for ever, also after acknowledgement or lifespan expiry; unregister keeps the instance "
+             "entry, so max_instances counts instances ever written; a sample already expired at write time is "
+             "counted but never sent; a Rejected/NotAdded reader change has already updated the instance state (C22)."),
+    "technique": "Coq proof (limit invariants by induction over operation histories; exact case analysis of add_reader_change and write_w_timestamp) + differential correspondence (reader and writer harness)",
 }
 
 
